@@ -23,8 +23,14 @@ def run(ctx):
     cl = gen.classes()
     traces = []
 
-    def add(name, obj):
-        data = obj.read()
+    def add(name, obj, may_refuse=False):
+        try:
+            data = obj.read()
+        except Exception:
+            if not may_refuse:
+                raise
+            ctx.count_case((name, "refused"), nontrivial=True)      # no file written: nothing to conform
+            return
         ev = {"op": "save", "obj": fmt.projection.project_any(obj, spec), "chunks": fmt.tlv.to_json_nested(data)}
         traces.append({"id": name, "events": [ev]})
         nm = len(ev["obj"].get("modules", [])) if ev["obj"]["kind"] == "project" else 1
@@ -46,6 +52,18 @@ def run(ctx):
             add("%s#fresh-edited" % t, api.Synth(fm))
         for k in range(2 if q else 30):
             add("%s#%d" % (t, k), api.Synth(gen.rand_module(rnd, cl[t], spec, depth=1, in_project=False)))
+    for nm, obj in gen.boundary_sources(spec):      # deterministic boundary values
+        add(nm, obj)
+    # value lists of the wrong length in the fixed-size array blocks: the writer refuses, or writes the documented size
+    for t, attr in (("WaveShaper", "curve"), ("MultiSynth", "nv_curve"), ("MultiSynth", "vv_curve"), ("MultiSynth", "np_curve"),
+                    ("MultiCtl", "curve"), ("SpectraVoice", "harmonic_volumes"), ("SpectraVoice", "harmonic_freqs"), ("FMX", "custom_waveform")):
+        for delta in (-1, 1):
+            mod = cl[t]()
+            arr = getattr(mod, attr)
+            arr.values = list(arr.values)[:-1] if delta < 0 else list(arr.values) + [arr.values[0]]
+            if attr == "np_curve" or t == "FMX":
+                arr.values[0] = arr.values[0] + 1 if t != "FMX" else 0.5          # (these blocks are written only when not default)
+            add("%s.%s%+d" % (t, attr, delta), api.Synth(mod), may_refuse=True)
     for i in range(20 if q else 300):
         hp = gen.rand_project(rnd, spec, depth=2, types=["MetaModule", "Sampler", "MultiSynth", "Analog generator"], nmods=4)
         add("heavy%d" % i, hp)
